@@ -20,15 +20,15 @@ META = {
         "the reference (by value, full domain) and the table-less functions have the reference shape, so table on/off "
         "alternatives are tied to the same function; (3) the reduced-memory bucket increment returns early exactly when the "
         "mapping can exceed the bucket count and the index is out of range; (4) the SIMD backends are tied to their "
-        "siblings by normalised-DAG agreement (body distance) and a shared comparison core with matching shuffle masks and "
+        "siblings by normalised-DAG agreement (body distance: scalar 32/64, SSE2, SSE4.1, AVX2, NEON) and a shared comparison core (aggregation: SSE2, SSSE3, AVX2, wasm simd128) with matching shuffle masks and "
         "orientation (aggregation); (5) dispatch is sound: every backend is called under a detection (or static feature "
         "set) implying its target features, each dispatch static is touched only by its own dispatcher; (6) the first-call "
         "race is benign: initialiser closures capture nothing and read no static, so every thread computes the same value; "
         "(7) the `unsafe` feature only changes the invariant!/from_utf8_unchecked sites, each discharged in C17."
     ),
     "trusted_base": ["rustc nightly front end, constant evaluator, target-feature implication lists", "std::sync::OnceLock, std_detect", "hex-simd"],
-    "assumptions": ["x86_64 target; ARM/WASM/portable-SIMD backends and the `unstable` feature are not compiled here"],
-    "not_decided": ["equality of results across configurations beyond these ties", "backends not compiled on x86_64"],
+    "assumptions": ["analysed targets: x86_64 (all feature configurations), aarch64 (NEON), i686, wasm32+simd128, riscv64 without Zbb -- the last four type-checked with -Zbuild-std, never executed; the portable-SIMD backends, 32-bit Arm and the `unstable` feature do not compile with the installed nightly and are not analysed"],
+    "not_decided": ["equality of results across configurations beyond these ties", "portable-SIMD and 32-bit Arm backends"],
 }
 TECHNIQUE = "cross-configuration MIR diffing, table value rules, operation-DAG sibling agreement, dominance/feature-implication rules for dispatch"
 
